@@ -336,6 +336,48 @@ def run(ctx, chk, tier="quick"):
                "(times, levels) of the same sample indices of the interval", key="compute_offsets|series",
                why="levels taken with other indices than the times belong to a neighbour's samples")
 
+    # ------------------------------------------------------------ O3 grid-step lineage
+    # zeta_grid.grid_interval_mm -> get_series_time_offsets(step) -> build_head_mapping(step) -> regrid(step)
+    gs = ctx.func("fit_offsets.get_series_time_offsets")
+    bh = ctx.func("fit_offsets.build_head_mapping")
+    rg = ctx.func("regrid.regrid")
+
+    def passes(caller, callee, pname, must_be):
+        """Every call of callee in caller binds parameter `pname` to `must_be(caller)` (a Name test)."""
+        calls = [c for c in ast.walk(caller.node) if isinstance(c, ast.Call) and ctx.cg.resolve_callee(caller, c.func) == [callee.fq]]
+        if not calls:
+            return None, "no call"
+        idx = callee.params.index(pname)
+        for c in calls:
+            val = None
+            for k in c.keywords:
+                if k.arg == pname:
+                    val = k.value
+            if val is None and len(c.args) > idx:
+                val = c.args[idx]
+            if val is None:
+                return False, "%s(%s): %s left to its default" % (callee.name, ", ".join(ast.unparse(a) for a in c.args), pname)
+            if not must_be(val):
+                return False, "%s: %s = %s" % (callee.name, pname, ast.unparse(val))
+        return True, "%s receives %s" % (callee.name, pname)
+
+    chain = []
+    chain.append((gs, passes(gs, bh, bh.params[1], lambda v: isinstance(v, ast.Name) and v.id == gs.params[1])))
+    chain.append((bh, passes(bh, rg, rg.params[2], lambda v: isinstance(v, ast.Name) and v.id == bh.params[1])))
+    for caller_fq in ("rise.compute_rise_offsets", "recession.compute_offsets"):
+        cf = ctx.func(caller_fq)
+        stepn = None
+        for b in bindings(ctx, cf):
+            if {x.table for x in b.site.stmt.sources} == {"zeta_grid"} and any(b.names):
+                stepn = [n for n in b.names if n][0]
+        chain.append((cf, passes(cf, gs, gs.params[1], lambda v, stepn=stepn: isinstance(v, ast.Name) and v.id == stepn)))
+    for caller, (okc, dsc) in chain:
+        if okc is None:
+            chk.indeterminate("C13.O3", where_of(caller, caller.node), "grid-step lineage: %s" % dsc)
+        else:
+            chk.ob("C13.O3", okc, where_of(caller, caller.node), "grid step: %s" % dsc,
+                   "the step stored in zeta_grid reaches regrid unchanged", key="%s|grid-step-lineage" % caller.qualname,
+                   why="crossings computed on another step are stored under level ids of the grid: every row is attached to the wrong level unless the step is 1")
     # ------------------------------------------------------------ O4 index mapping
     g = ctx.func("fit_offsets.get_series_time_offsets")
     gflow = Flow.of(g)
